@@ -152,10 +152,11 @@ class FnItem:
         return f'fn {self.name}'
 
 class ClosureV:
-    __slots__ = ('loc', 'caps')
-    def __init__(self, loc, caps):
+    __slots__ = ('loc', 'caps', 'subst')
+    def __init__(self, loc, caps, subst=None):
         self.loc = loc
         self.caps = caps    # Struct of captured values
+        self.subst = subst  # generic instantiation of the function that created it (closure bodies use its parameters)
 
     def mir_field(self, eng, idx, ty):
         return self.caps.f[idx]
